@@ -318,11 +318,14 @@ structure Case where
   prog : List Stmt
   tail : List Stmt := []
   discard : Bool := false
+  /-- `tw-*` kinds: `tail` is the neutral twin of `prog`, both must render the same -/
+  twin : Bool := false
 
 def toCase : SExp → Option Case
   | .list [.atom "wrap", .atom kind, p, t] =>
     match toBlock p, toBlock t with
-    | some p, some t => some { prog := p, tail := t, discard := ["child", "from", "import", "block", "macro", "rustkw"].contains kind }
+    | some p, some t => some { prog := p, tail := t, discard := ["child", "from", "import", "block", "macro", "rustkw"].contains kind,
+                               twin := kind.startsWith "tw-" }
     | _, _ => none
   | x => (toBlock x).map fun p => { prog := p }
 
@@ -356,6 +359,10 @@ def handle (line : String) : String :=
   | [id, ctx, prog] =>
     match (parseSExp ctx).bind toCtx, (parseSExp prog).bind toCase with
     | some ctx, some c =>
+      if c.twin && showRes (renderTemplate 4000 ctx c.prog) != showRes (renderTemplate 4000 ctx c.tail) then
+        s!"{id}\tbad-case:the twin is not neutral in the reference semantics\toof\t-\t-\t-"
+      else
+      let c : Case := if c.twin then { c with tail := [] } else c
       let whole := c.prog ++ c.tail
       -- generated programs need a few hundred units; unbounded macro recursion shows up as FUEL
       let res := showRes (if c.discard then renderAfter 4000 ctx c.prog c.tail else renderTemplate 4000 ctx whole)
